@@ -279,6 +279,7 @@ func crashsim(args []string) error {
 	optFsync := fs.Bool("optfsync", false, "namespace option optimized_fsync (WAL flushed, not fsynced, on most saves)")
 	think := fs.Int("think", 0, "mean client think time in ms (0 = none); slows the log down so that snapshots do not overlap")
 	delay := fs.Int("delay", 0, "ms the dying goroutine blocks at the hook before the kill (concurrent goroutines finish their step)")
+	ballast := fs.Int("ballast", 0, "MB of unmodelled 1 MB values written before the scenario starts: the engine checkpoint of a snapshot then takes much longer than writing the snapshot file and the WAL marker")
 	keepBackup := fs.Int("keepbackup", 2, "checkpoints kept (1 is legal for checkpoints; snapshot files then keep 10)")
 	fs.Parse(args)
 
@@ -323,6 +324,43 @@ func crashsim(args []string) error {
 	}
 	if err := s.boot(); err != nil {
 		return fail(err)
+	}
+	// unmodelled bulk (never read back, never in a dump): only there to make checkpoints slow.
+	// tolerant: the node may die while it is written (armed crash) - that is the point of it.
+	writeBallast := func(tolerant bool) error {
+		if *ballast <= 0 {
+			return nil
+		}
+		ld := s.leader()
+		if ld == 0 {
+			if tolerant {
+				return nil // the armed node is gone already
+			}
+			return envErr("no leader found (ballast)")
+		}
+		c, err := dialResp(cl.redisPort(ld), 2*time.Second)
+		if err != nil {
+			if tolerant {
+				return nil
+			}
+			return envErr("ballast: " + err.Error())
+		}
+		defer c.close()
+		big := strings.Repeat("b", 1<<20)
+		for i := 0; i < *ballast; i++ {
+			if _, err := c.do(10*time.Second, "set", fmt.Sprintf("%sballast%d", keyPrefix, i), big); err != nil {
+				if tolerant {
+					return nil
+				}
+				return envErr("ballast write: " + err.Error())
+			}
+		}
+		return nil
+	}
+	if *kind != "point" {
+		if err := writeBallast(false); err != nil {
+			return fail(err)
+		}
 	}
 	stopNoise := make(chan struct{})
 	defer close(stopNoise)
@@ -372,9 +410,17 @@ func crashsim(args []string) error {
 			s.w.run(*pre)
 			s.w.wait()
 		}
+		if *ballast > 0 {
+			// let a snapshot of the small store that is still under way finish: the armed hook is to be
+			// hit by a snapshot whose checkpoint has the bulk to copy
+			time.Sleep(400 * time.Millisecond)
+		}
 		k.send(fmt.Sprintf("crash %s %d", *point, *kHit))
 		if ln := k.waitLine(5*time.Second, "ARMED "); !strings.HasPrefix(ln, "ARMED ") {
 			return fail(envErr("arming failed: " + ln))
+		}
+		if err := writeBallast(true); err != nil {
+			return fail(err)
 		}
 		s.w.run(*ops)
 		deadline := time.Now().Add(60 * time.Second)
